@@ -20,6 +20,8 @@ KANI_CONTRACTS = {
     },
 }
 
+KANI_GROUP_DEPS = {'k_peg': ['refpeg', 'peg_common']}
+
 TECH = 'contract-based deductive verification: Verus on functions extracted mechanically from /repo each run (trait contracts over a PEG denotation), Kani function contracts / loop-free harnesses, labelled Kani-bounded stand-ins'
 NOTE_COMMON = ('Trusts Verus/Z3, Kani/CBMC, the extractor and rewrite table R1-R6 (diff emitted per run; R1 erases the error tracker), '
                'the model of pest::Stack (checked against the real type by Kani within a bound), vstd specs. '
@@ -33,7 +35,11 @@ PROPS = {
         'technique': TECH,
         'verus': ['comb', 'choice', 'nodes', 'seqchk', 'repchk', 'wrappers', 'leaf', 'input'],
         'expanded': True,
-        'kani': [],
+        'kani': [
+            ('k_peg', 'peg_seq3_skip', 'bounded', 'q', 'a ~ b ~ a with skip; symbolic input <=5 chars over {a,b,space}; unwind 7'),
+            ('k_peg', 'peg_seq2_atomic', 'bounded', 'q', '@{a ~ b}; symbolic input <=4 chars; unwind 6'),
+            ('k_peg', 'peg_rep_1_2_skip', 'bounded', 'q', 'a{1,2} with skip; symbolic input <=5 chars; unwind 7'),
+        ],
         'assumptions': ['sem (PEG denotation with full backtracking, failing empty-stack operations) is pest\'s behaviour where pest is defined',
                         'generator translation of the grammar into the combinator type tree is not verified (DESIGN.md §6)'],
     },
@@ -44,7 +50,11 @@ PROPS = {
         'technique': TECH,
         'verus': ['comb', 'choice', 'nodes', 'seqchk', 'repchk', 'wrappers', 'leaf'],
         'expanded': True,
-        'kani': [],
+        'kani': [
+            ('k_peg', 'peg_seq3_skip', 'bounded', 'q', 'a ~ b ~ a with skip; symbolic input <=5 chars over {a,b,space}; unwind 7'),
+            ('k_peg', 'peg_seq2_atomic', 'bounded', 'q', '@{a ~ b}; symbolic input <=4 chars; unwind 6'),
+            ('k_peg', 'peg_rep_1_2_skip', 'bounded', 'q', 'a{1,2} with skip; symbolic input <=5 chars; unwind 7'),
+        ],
         'assumptions': ['R1 (tracker erasure) is behaviour-preserving for match/offset/stack results'],
     },
     'C04': {
@@ -68,6 +78,10 @@ PROPS = {
         'native': [
             ('nb_stackmodel', 'nb_stack_depth1', 'all op sequences of length<=8 over {push(a),push(b),pop,snapshot,clear_snapshot,restore}, snapshot nesting depth<=1', 'q'),
             ('nb_stackmodel', 'nb_stack_nested', 'all op sequences of length<=7, arbitrary nesting', 'q'),
+            ('nb_peg', 'nb_peg_push_pop', 'PUSH(a|b) ~ (POP ~ b | PEEK ~ DROP); all strings<=8 chars over {a,b}', 'q'),
+            ('nb_peg', 'nb_peg_pred', 'PUSH(a){0,2} ~ &POP ~ !b ~ PEEK_ALL; all strings<=8 chars over {a,b}', 'q'),
+            ('nb_peg', 'nb_peg_rep_choice', '(a | b ~ a)+; all strings<=8 chars', 'q'),
+            ('nb_peg', 'nb_peg_d1', 'PUSH(a) ~ ((POP? ~ b) | PEEK); all strings<=6 chars over {a,b}', 'q'),
         ],
         'assumptions': ['pest::Stack behaves as the snapshot-stack model (R4); checked within a bound by k_stackmodel'],
     },
@@ -82,6 +96,11 @@ PROPS = {
             ('k_idx', 'idx_constrain_full', 'complete', 'q', 'all i32 x Option<i32> x len<=i32::MAX'),
             ('k_idx', 'idx_constrain_contract', 'contract', 'q', 'kani contract on constrain_idxs'),
         ],
+        'native': [
+            ('nb_peg', 'nb_peg_slice', 'PUSH(a|b){0,3} ~ PEEK[0..1] ~ PEEK[-1..] ~ POP_ALL; all strings<=9 chars over {a,b}', 'q'),
+            ('nb_peg', 'nb_peg_push_pop', 'PUSH(a|b) ~ (POP ~ b | PEEK ~ DROP); all strings<=8 chars over {a,b}', 'q'),
+            ('nb_peg', 'nb_peg_pred', 'PUSH(a){0,2} ~ &POP ~ !b ~ PEEK_ALL; all strings<=8 chars over {a,b}', 'q'),
+        ],
         'assumptions': [
             'stack length <= i32::MAX (precondition of the index arithmetic; `len as i32` wraps beyond it — D6 in DESIGN.md)',
         ],
@@ -93,7 +112,11 @@ PROPS = {
         'technique': TECH,
         'verus': ['seqchk', 'repchk', 'wrappers'],
         'expanded': True,
-        'kani': [],
+        'kani': [
+            ('k_peg', 'peg_seq3_skip', 'bounded', 'q', 'a ~ b ~ a with skip; symbolic input <=5 chars over {a,b,space}; unwind 7'),
+            ('k_peg', 'peg_seq2_atomic', 'bounded', 'q', '@{a ~ b}; symbolic input <=4 chars; unwind 6'),
+            ('k_peg', 'peg_rep_1_2_skip', 'bounded', 'q', 'a{1,2} with skip; symbolic input <=5 chars; unwind 7'),
+        ],
         'assumptions': ['which of 0 / 1 / INHERITED reaches each rule reference is decided by generator code outside the verified set'],
     },
     'C08': {
@@ -133,7 +156,11 @@ PROPS = {
         'technique': TECH,
         'verus': ['comb', 'repchk'],
         'expanded': False,
-        'kani': [],
+        'kani': [
+            ('k_peg', 'peg_seq3_skip', 'bounded', 'q', 'a ~ b ~ a with skip; symbolic input <=5 chars over {a,b,space}; unwind 7'),
+            ('k_peg', 'peg_seq2_atomic', 'bounded', 'q', '@{a ~ b}; symbolic input <=4 chars; unwind 6'),
+            ('k_peg', 'peg_rep_1_2_skip', 'bounded', 'q', 'a{1,2} with skip; symbolic input <=5 chars; unwind 7'),
+        ],
         'assumptions': ['partial correctness for the unbounded repetition loop'],
     },
 }
